@@ -33,7 +33,7 @@ RULE = ("stateless exploration, one pristine forked process per execution: real 
 ASSUMPTIONS = ["CPython switches threads only between bytecodes; free-threaded builds are out of scope",
                "configuration is not mutated concurrently (as the property states)"]
 
-DOCS = ["a", "*a* `b`", "> q", "- l", "[x](y)", "![i](j)", "|a|\n|-|", "[r]\n\n[r]: /u", "<http://é.x/ü> &amp;",
+DOCS = ["a", "*a* `b`", "> q", "- l", "[x](y)", "![i](j)", "|a|\n|-|", "[r]\n\n[r]: /u", "<http://é.x/ü%3D%41%2f> &amp;",
         # paragraphs interrupted without a blank line: every named terminator chain is consulted
         "a\n# h\nb\n> q\nc\n- l\nd\n***\ne\n```\nf\n```\ng\n<div>\n\n[r]: /u\n1. o\nz\n|t|\n|-|\n",
         # inline scanners with per-parse scratch state: backtick run cache, delimiter stacks, link-label skip cache
@@ -43,6 +43,9 @@ DOCS = ["a", "*a* `b`", "> q", "- l", "[x](y)", "![i](j)", "|a|\n|-|", "[r]\n\n[
         "[[[[a](b)]]] [[[[[c]]]]](d)",
         "```py\nx\n```\n\n~~~rb\ny\n~~~\n",
         "```js a=1\nz\n```\n"]
+# many distinct destinations in one call (bounded memo tables, eviction) - long, so only explored in windows
+MANY_A = "".join(f"<http://h.x/a{i}> " for i in range(135)) + "\n"
+MANY_B = "".join(f"[l](/b{i}) " for i in range(135)) + "\n"
 PRESET = ("js-default", None)
 SCENARIOS = ["fresh", "reconf-disable", "reconf-enable", "reconf-push", "reconf-ruler2", "warm", "warm-mn6"]
 
@@ -133,17 +136,19 @@ def job_solo(job):
 
 
 def job_profile(job):
-    """solo run under the scheduler: number of steps; with a (lo, hi) range also the steps in that range at which
-    the generic heap fingerprint changes (the profile is cut into ranges that run in parallel)"""
+    """solo run under the scheduler: number of steps; with a (lo, hi, stride) range also the sampled steps in that
+    range after which the generic heap fingerprint differs from the previous sample (the profile is cut into ranges
+    that run in parallel; long calls are first sampled coarsely and then refined inside the windows that changed)"""
     from ..sched import Sched
 
     scenario, kind, doc, gran, rng = job
     md = make_md(scenario)
     writes = []
     last = [None]
+    stride = rng[2] if rng and len(rng) > 2 else 1
 
     def obs(i, step, code, arg):
-        if step < rng[0] - 1 or step >= rng[1]:
+        if step < rng[0] - 1 or step >= rng[1] or (step - (rng[0] - 1)) % stride:
             return
         g = heapwalk.fingerprint([md])[0]
         if last[0] is not None and g != last[0]:
@@ -164,16 +169,27 @@ def profile_with_writes(keys):
         if res[0] != "ok":
             raise RuntimeError("profile failed: " + str(res[1])[:300])
         n[keys[idx]] = res[1][0]
-    jobs = []
-    for k in keys:
-        for lo in range(1, n[k] + 2, 60):
-            jobs.append(k + ((lo, lo + 60),))
     out = {k: [] for k in keys}
-    for idx, res in fork_map(job_profile, jobs, NPROC):
+    fine = []
+    coarse = []
+    for k in keys:
+        if n[k] <= 2500:
+            for lo in range(1, n[k] + 2, 60):
+                fine.append(k + ((lo, lo + 60),))
+        else:
+            for lo in range(1, n[k] + 2, 4000):
+                coarse.append(k + ((lo, lo + 4000, 80),))
+    for idx, res in fork_map(job_profile, coarse, NPROC):
         if res[0] != "ok":
             raise RuntimeError("profile failed: " + str(res[1])[:300])
-        out[jobs[idx][:4]] += res[1][1]
-    return {k: (n[k], sorted(out[k])) for k in keys}
+        for step, _site in res[1][1]:
+            # the change happened within the 80 steps before this sample: refine there
+            fine.append(coarse[idx][:4] + ((max(1, step - 80), step + 1),))
+    for idx, res in fork_map(job_profile, fine, NPROC):
+        if res[0] != "ok":
+            raise RuntimeError("profile failed: " + str(res[1])[:300])
+        out[fine[idx][:4]] += res[1][1]
+    return {k: (n[k], sorted(set(out[k]))) for k in keys}
 
 
 def job_exec(job):
@@ -311,7 +327,7 @@ def job_lemma_docs(job):
 QUICK_PAIRS = [("fresh", 1, 4, "mixed"), ("fresh", 4, 5, "mixed"), ("fresh", 8, 9, "mixed"), ("fresh", 7, 6, "line"),
                ("reconf-enable", 1, 9, "line"), ("reconf-push", 1, 3, "line"), ("reconf-disable", 4, 1, "line"),
                ("reconf-ruler2", 1, 2, "line"), ("warm", 10, 11, "line"), ("fresh", 11, 10, "line"),
-               ("warm-mn6", 12, 12, "line"), ("warm", 13, 14, "line")]
+               ("warm-mn6", 12, 12, "line"), ("warm", 13, 14, "line"), ("fresh", 8, 8, "line")]
 
 
 def bounds(tier):
@@ -363,14 +379,25 @@ def run_shard(sh, acc):
     lem = []
     for di in range(6 if th else 2):
         lem.append(("warm", "render", DOCS[(di + 1) % len(DOCS)], "line"))
+    lem.append(("warm", "render", MANY_A, "line"))
+    lem.append(("warm", "render", MANY_B, "line"))
+    windowed = []  # (scenario, call A, call B, steps of A at which to preempt)
     for k, (n, wr) in profile_with_writes(lem).items():
         acc.case()
         acc.count("lemma_line_profiles")
         acc.count("lemma_line_steps_fingerprinted", n)
         if wr:
-            suspects.append(k[2])
             for w in wr[:6]:
                 acc.add("shared_write_sites_warm", w[1])
+            if n > 2500:
+                # too long for a full sweep: preempt around every shared write of this call, against a partner
+                # that makes as many writes of its own
+                pts = sorted({w[0] + d for w in wr for d in (-1, 0, 1, 2, 3) if 1 <= w[0] + d <= n})
+                for other in (MANY_A, MANY_B):
+                    windowed.append(("warm", ("render", k[2]), ("render", other), pts))
+                acc.add("lemma_failed_docs", k[2][:40] + "...")
+            else:
+                suspects.append(k[2])
     lines = S.FREE_LINES if th else S.FREE_LINES[:2]
     ld = [(f, 2 if th else 1) for f in lines]
     for idx, res in fork_map(job_lemma_docs, ld, NPROC):
@@ -398,6 +425,8 @@ def run_shard(sh, acc):
     for sc, ca, cb in b2_pairs:
         need_solo |= {(sc,) + ca, (sc,) + cb}
         need_w |= {(sc,) + ca + ("line",), (sc,) + cb + ("line",)}
+    for sc, ca, cb, pts in windowed:
+        need_solo |= {(sc,) + ca, (sc,) + cb}
     for sc, ca, cb, cc in three:
         need_solo |= {(sc,) + ca, (sc,) + cb, (sc,) + cc}
         need_prof.add((sc,) + ca + ("line", False))
@@ -444,6 +473,10 @@ def run_shard(sh, acc):
                 for j in pb:
                     yield (sc, [list(ca), list(cb)], [[0, i], [1, j], [0, None], [1, None]], "line",
                            20 * max(nA, nB) + 5000, so, "bound2")
+        for sc, ca, cb, pts in windowed:
+            so = [solos[(sc,) + ca], solos[(sc,) + cb]]
+            for i in pts:
+                yield (sc, [list(ca), list(cb)], [[0, i], [1, None], [0, None]], "line", 400000, so, "windowed")
         for sc, ca, cb, cc in three:
             nA, _ = profs[(sc,) + ca + ("line", False)]
             so = [solos[(sc,) + ca], solos[(sc,) + cb], solos[(sc,) + cc]]
